@@ -256,14 +256,41 @@ def _func_node(tree, cls, fn):
     return None
 
 
+IMMUTABLE_WRAPPER = "ImmutableMixin[immutable]"     # pseudo type name: a wrapper whose _is_immutable() holds
+
+
 def _isinstance_tuple(fn):
-    """names in the (single) isinstance(x, (A, B, ...)) tuple of the function, or None"""
-    found = []
+    """names in the (single) isinstance(x, (A, B, ...)) tuple of the function, or None.  The only other
+    isinstance test accepted is the conjunct `not (isinstance(x, ImmutableMixin) and x._is_immutable())` and-ed
+    to `not isinstance(x, (...))` (a wrapper is exempt only when it is itself immutable): it adds the pseudo
+    name IMMUTABLE_WRAPPER to the tuple.  Any other isinstance call: None (fail closed)."""
+    found, single = [], []
     for n in ast.walk(fn):
-        if isinstance(n, ast.Call) and isinstance(n.func, ast.Name) and n.func.id == "isinstance" \
-                and len(n.args) == 2 and isinstance(n.args[1], ast.Tuple):
-            found.append([ast.unparse(e) for e in n.args[1].elts])
-    return found[0] if len(found) == 1 else None
+        if isinstance(n, ast.Call) and isinstance(n.func, ast.Name) and n.func.id == "isinstance" and len(n.args) == 2:
+            if isinstance(n.args[1], ast.Tuple):
+                found.append((n, [ast.unparse(e) for e in n.args[1].elts]))
+            else:
+                single.append(n)
+    if len(found) != 1:
+        return None
+    call, names = found[0]
+    if not single:
+        return names
+    if len(single) != 1 or not isinstance(call.args[0], ast.Name):
+        return None
+    val = call.args[0].id
+    # the conjunction that holds both tests
+    for n in ast.walk(fn):
+        if isinstance(n, ast.BoolOp) and isinstance(n.op, ast.And):
+            has_tuple = any(isinstance(e, ast.UnaryOp) and isinstance(e.op, ast.Not) and e.operand is call for e in n.values)
+            wrapper = [e for e in n.values if isinstance(e, ast.UnaryOp) and isinstance(e.op, ast.Not)
+                       and isinstance(e.operand, ast.BoolOp) and isinstance(e.operand.op, ast.And)
+                       and len(e.operand.values) == 2 and e.operand.values[0] is single[0]
+                       and ast.unparse(single[0]) == "isinstance(%s, ImmutableMixin)" % val
+                       and ast.unparse(e.operand.values[1]) == "%s._is_immutable()" % val]
+            if has_tuple and len(wrapper) == 1:
+                return names + [IMMUTABLE_WRAPPER]
+    return None
 
 
 def _has_deepcopy(fn):
